@@ -1,0 +1,25 @@
+//go:build verif
+
+package fpgo
+
+import "sync/atomic"
+
+// Verification hook (only in builds with -tags verif): a test harness installs a function that is
+// called at named points of the concurrent code paths, where it may count, yield, delay or park the
+// calling goroutine. Without the tag verifAt is an empty function (verif_hook_off.go).
+
+var verifHook atomic.Value // func(string)
+
+// VerifSetHook installs the hook (nil removes it).
+func VerifSetHook(f func(point string)) {
+	verifHook.Store(f)
+}
+
+// VerifAt calls the installed hook, if any (exported for the sub-packages).
+func VerifAt(point string) {
+	if f, _ := verifHook.Load().(func(string)); f != nil {
+		f(point)
+	}
+}
+
+func verifAt(point string) { VerifAt(point) }
